@@ -165,6 +165,7 @@ FilePersister::~FilePersister()
 //-------------------------------------------------------------------------------------------------
 unsigned FilePersister::get_last_seqnum(unsigned& sequence) const
 {
+	f8_scoped_lock guard(_mutex);
 	return sequence = _index.empty() ? 0 : _index.rbegin()->first;
 }
 
@@ -186,14 +187,16 @@ unsigned FilePersister::get(const unsigned from, const unsigned to, Session& ses
 		return 0;
 	}
 
-	Index::const_iterator itr(_index.find(startSeqNum));
-	if (itr != _index.end())
+	// one record at a time under the lock: the callback sends, and sending threads store meanwhile
+	char buff[FIX8_MAX_MSG_LENGTH];
+	for (unsigned next(startSeqNum);;)
 	{
-		char buff[FIX8_MAX_MSG_LENGTH];
-
-		do
+		unsigned seqnum;
+		int32_t size;
 		{
-			if (!itr->first || itr->first > finish)
+			f8_scoped_lock guard(_mutex);
+			Index::const_iterator itr(_index.lower_bound(next));
+			if (itr == _index.end() || !itr->first || itr->first > finish)
 				break;
 			if (lseek(_fod, itr->second._offset, SEEK_SET) < 0)
 			{
@@ -206,24 +209,22 @@ unsigned FilePersister::get(const unsigned from, const unsigned to, Session& ses
 				glout_error << "Error: could not read message record for seqnum " << itr->first << " from: " << _dbFname;
 				break;
 			}
-
-			Session::SequencePair txresult(itr->first, f8String(buff, itr->second._size));
-			++recs_sent;
-			if (!(session.*callback)(txresult, rctx))
-			{
-				glout_debug << "Retransmission callback signalled an error, not sending any more records from: " << _dbFname;
-				break;
-			}
+			seqnum = itr->first;
+			size = itr->second._size;
 		}
-		while(++itr != _index.end());
 
-		rctx._no_more_records = true;
-		(session.*callback)(Session::SequencePair(0, ""), rctx);
+		Session::SequencePair txresult(seqnum, f8String(buff, size));
+		++recs_sent;
+		if (!(session.*callback)(txresult, rctx))
+		{
+			glout_debug << "Retransmission callback signalled an error, not sending any more records from: " << _dbFname;
+			break;
+		}
+		next = seqnum + 1;
 	}
-	else
-	{
-		glout_error << "record not found (" << startSeqNum << ')';
-	}
+
+	rctx._no_more_records = true;
+	(session.*callback)(Session::SequencePair(0, ""), rctx);
 
 	return recs_sent;
 }
@@ -231,6 +232,7 @@ unsigned FilePersister::get(const unsigned from, const unsigned to, Session& ses
 //-------------------------------------------------------------------------------------------------
 bool FilePersister::put(const unsigned sender_seqnum, const unsigned target_seqnum)
 {
+	f8_scoped_lock guard(_mutex);
 	if (!_opened)
 		return false;
 	IPrec iprec(0, sender_seqnum, target_seqnum);
@@ -251,6 +253,7 @@ bool FilePersister::put(const unsigned sender_seqnum, const unsigned target_seqn
 //-------------------------------------------------------------------------------------------------
 bool FilePersister::put(const unsigned seqnum, const f8String& what)
 {
+	f8_scoped_lock guard(_mutex);
 	if (!_opened || !seqnum)
 		return false;
 
@@ -302,6 +305,7 @@ bool FilePersister::put(const unsigned seqnum, const f8String& what)
 //-------------------------------------------------------------------------------------------------
 bool FilePersister::get(unsigned& sender_seqnum, unsigned& target_seqnum) const
 {
+	f8_scoped_lock guard(_mutex);
 	if (!_opened)
 		return false;
 
@@ -326,6 +330,7 @@ bool FilePersister::get(unsigned& sender_seqnum, unsigned& target_seqnum) const
 //-------------------------------------------------------------------------------------------------
 bool FilePersister::get(const unsigned seqnum, f8String& to) const
 {
+	f8_scoped_lock guard(_mutex);
 	if (!_opened || !seqnum || _index.empty())
 		return false;
 	Index::const_iterator itr(_index.find(seqnum));
@@ -355,6 +360,7 @@ bool FilePersister::get(const unsigned seqnum, f8String& to) const
 //---------------------------------------------------------------------------------------------------
 unsigned FilePersister::find_nearest_highest_seqnum (const unsigned requested, const unsigned last) const
 {
+	f8_scoped_lock guard(_mutex);
 	if (last)
 	{
 		for (unsigned startseqnum(requested ? requested : 1); startseqnum <= last; ++startseqnum) // 0 is the control record
